@@ -322,6 +322,12 @@ Definition step_st (c : cfg) (s : st) (e : ev) : st := fst (step c s e).
 
 (* ---- script interface ----
    script = [max; mode; ncalls; nd; d_1 .. d_nd; (op a b)* ]
+     max: 0..16 as given (the builder stores n.max(1)); above 16, and only with a Fixed positive
+     delay (else it counts as 16), the configured maximum is that number -- up to usize::MAX: the
+     result channel's capacity is capped, so no maximum makes the call panic -- and the model
+     runs with min(max, number of script events + 2): with a positive fixed delay a step launches
+     at most one attempt (C12_launches_le_events), so that bound is never reached, and below the
+     bound the trace does not depend on max (C12_max_irrelevant_below_bound);
      mode mod 4: 0 (or 3) = Fixed d_1, 1 = Immediate, 2 = Dynamic (attempt k -> d_k, 0 beyond nd);
      (mode / 4) mod 2 = 1: gated readiness of clones;
      (mode / 8) mod 4: how the harness shares Hedge values between the calls (no effect here:
@@ -332,7 +338,9 @@ Definition step_st (c : cfg) (s : st) (e : ev) : st := fst (step c s e).
      op 1 = Poll a, 2 = Drop a, 3 = Advance a ms, 4 = Complete (a / 16) (a mod 16) b (b: 0 ok 1 err 2 panic),
      5 = Ready (a / 16) (a mod 16), 6 = ReadyErr (a / 16) (a mod 16),
      7 = the inner call (a / 16) (a mod 16) panics, synchronously inside inner.call() if it has not
-     been made yet: for the attempt task that makes it, that is Complete .. panic
+     been made yet: for the attempt task that makes it, that is Complete .. panic,
+     8 = Create a: Hedge::call() is made now, the future is not polled (nothing happens before
+     the first poll: an Advance 0)
    trace = per event [r; v; ns; nl; wake mask; in-flight; now]
      ns = (inner calls started in this event by call i) * 32^i, nl = same for hedge tasks launched *)
 Definition clamp (lo hi z : Z) : Z := Z.max lo (Z.min hi z).
@@ -357,7 +365,8 @@ Definition ev_of (ncalls : nat) (t : Z * Z * Z) : option ev :=
      then Some (ReadyErr (Z.to_nat (a / 16)) (Z.to_nat (a mod 16))) else None) else
   if op =? 7 then
     (if (0 <=? a) && (Z.to_nat (a / 16) <? ncalls)%nat
-     then Some (Complete (Z.to_nat (a / 16)) (Z.to_nat (a mod 16)) OPanic) else None)
+     then Some (Complete (Z.to_nat (a / 16)) (Z.to_nat (a mod 16)) OPanic) else None) else
+  if op =? 8 then (if (0 <=? a) && (i <? ncalls)%nat then Some (Advance 0) else None)
   else None.
 
 Fixpoint evs_of (ncalls : nat) (l : list (Z * Z * Z)) : list ev :=
@@ -408,7 +417,11 @@ Definition cfg_of (sc : list Z) : cfg :=
   let nd := Z.to_nat (clamp 0 16 (zn sc 3)) in
   let mode := clamp 0 63 (zn sc 1) in
   let ds := map (ms_of ((mode / 32) mod 2 =? 1)) (firstn nd (skipn 4 sc)) in
-  {| maxa := Nat.max 1 (Z.to_nat (clamp 0 16 (zn sc 0)));     (* builder: n.max(1) *)
+  let fixed_pos := negb (mode mod 4 =? 1) && negb (mode mod 4 =? 2) && (0 <? nth 0 ds 0) in
+  let nev := Z.of_nat (length (chunk3 (skipn (4 + nd) sc))) in
+  {| maxa := if (16 <? zn sc 0) && fixed_pos
+             then Z.to_nat (Z.min (zn sc 0) (nev + 2))
+             else Nat.max 1 (Z.to_nat (clamp 0 16 (zn sc 0)));     (* builder: n.max(1) *)
      dcfg := let m := mode mod 4 in
              if m =? 1 then Immediate
              else if m =? 2 then Dynamic ds
